@@ -171,7 +171,11 @@ function family(req, wasm) {
     const p = plan[k];
     if (p.kind === 'child' && !insts[p.parent]) { outs[k].instantiate = ['skip']; return; }
     built[k] = buildImports(req.imports, outs[k].host_log, p.kind === 'child' ? built[p.parent] : null);
-    try { insts[k] = new WebAssembly.Instance(module, built[k].imports); outs[k].instantiate = ['ok']; }
+    try {
+      // p.wasm: this instance is made from a variant of the module (e.g. without the data segments a child does not apply again)
+      insts[k] = new WebAssembly.Instance(p.wasm ? new WebAssembly.Module(hexToBuf(p.wasm)) : module, built[k].imports);
+      outs[k].instantiate = ['ok'];
+    }
     catch (e) {
       const c = trapClass(e);
       if (c) outs[k].instantiate = ['trap', c, String(e.message)];
